@@ -150,6 +150,19 @@ func H_escape(p []int) {
 	} else {
 		Q = vBytes(n)
 	}
+	if len(p) > 5 && p[5] > 0 {
+		// a long concrete prefix: the buffer's storage (64 bytes at first) is
+		// reallocated between the two writes; split counts from the end of the prefix
+		pre := make([]byte, p[5])
+		for j := range pre {
+			pre[j] = 'x'
+		}
+		Q = cat(pre, Q)
+		n = len(Q)
+		if split >= 0 {
+			split += p[5]
+		}
+	}
 	Q0 := append([]byte{}, Q...)
 	var b redact.ManualBuffer
 	b.SetMode(modeRaw)
